@@ -46,8 +46,8 @@ def make_col(dtype, vals, levels, with_null):
     v = list(vals)
     if with_null:
         v[1] = None
-    if dtype == "object":
-        return np.array(v, dtype=object)
+    if dtype == "object":  # explicit Series: pandas >= 3 infers its string dtype from a plain object array
+        return pd.Series(v, dtype=object)
     if dtype == "mixed_object":
         return np.array([str(x) if x is not None else None for x in v], dtype=object)
     if dtype in ("str", "string[python]", "string[pyarrow]"):
@@ -96,7 +96,7 @@ def enum_grid(tier: str):
     for dtype in TEXT_DTYPES + CAT_DTYPES + NUM_DTYPES:
         for mat in ("pandas", "narwhals", "arrow"):
             for output in ("pandas", "numpy", "sparse"):
-                for usage in ("alone", "interaction", "nulls", "two", "wrapped"):
+                for usage in ("alone", "interaction", "nulls", "two", "wrapped", "late"):
                     yield {"dtype": dtype, "mat": mat, "output": output, "usage": usage, "levels": LEVELS, "vals": VALS}
 
 
@@ -108,7 +108,8 @@ def gen_random(rng: random.Random, tier: str) -> dict:
     rng.shuffle(vals)
     return {"dtype": rng.choice(TEXT_DTYPES[:6] + ["category", "category_unsorted", "category_ordered", "category_unused"]),
             "mat": rng.choice(["pandas", "narwhals", "arrow"]), "output": rng.choice(["pandas", "numpy", "sparse"]),
-            "usage": rng.choice(["alone", "interaction", "nulls", "wrapped"]), "levels": levels, "vals": vals}
+            "usage": rng.choice(["alone", "interaction", "nulls", "wrapped"]), "levels": levels, "vals": vals,
+            "null_prefix": rng.choice([0, 0, 0, 1, 99, 100, 101, 140])}
 
 
 def judge(case) -> Outcome:
@@ -119,10 +120,18 @@ def judge(case) -> Outcome:
     out = Outcome()
     dtype, mat, output, usage = case["dtype"], case["mat"], case["output"], case["usage"]
     out.sig = (dtype, mat, output, usage, len(case["levels"]), tuple(case["levels"]) == tuple(sorted(case["levels"])))
-    vals = case["vals"]
-    n = len(vals)
     with_null = usage == "nulls"
     is_num = dtype in NUM_DTYPES
+    # a text column may start with any number of missing entries (libraries that sniff the leading values see no text there)
+    prefix = 0 if is_num or usage == "two" else case.get("null_prefix", 100 if usage == "late" else 0)
+    vals = [None] * prefix + list(case["vals"])
+    if with_null and not is_num:
+        if len(vals) < prefix + 2:
+            out.decided = False
+            return out
+        vals[prefix + 1] = None
+    n = len(vals)
+    out.sig = out.sig + (prefix,)
     if is_num and usage == "wrapped":  # C() makes numeric data categorical by construction: not this property's pass-through case
         out.decided = False
         out.sig = None
@@ -131,7 +140,7 @@ def judge(case) -> Outcome:
         if is_num:
             col = make_num(dtype, n, with_null)
         else:
-            col = make_col(dtype, vals, case["levels"], with_null)
+            col = make_col(dtype, vals, case["levels"], False)
         num = np.arange(1, n + 1, dtype=float) / 2
         data = {"V": col, "num": num}
         if usage == "two":
@@ -150,7 +159,7 @@ def judge(case) -> Outcome:
         except Exception:  # noqa: BLE001
             out.decided = False
             return out
-    f = {"alone": "0 + V", "interaction": "0 + V:num", "nulls": "0 + V", "two": "0 + V + W", "wrapped": "0 + C(V)"}[usage]
+    f = {"alone": "0 + V", "interaction": "0 + V:num", "nulls": "0 + V", "two": "0 + V + W", "wrapped": "0 + C(V)", "late": "0 + V"}[usage]
     tag = f"dtype={dtype} mat={mat} out={output} usage={usage} levels={case['levels']}"
     try:
         with quiet():
@@ -164,7 +173,10 @@ def judge(case) -> Outcome:
         out.fail("c08.non_numeric_cell", f"{tag}: {e}; columns {colnames(mm)}")
         return out
     names = colnames(mm)
-    keep = [i for i in range(n) if not (with_null and i == 1 and (not is_num or dtype in ("Int64", "Float64", "boolean", "float32", "float64", "arrow_int64", "arrow_float64")))]
+    if is_num:
+        keep = [i for i in range(n) if not (with_null and i == 1 and dtype in ("Int64", "Float64", "boolean", "float32", "float64", "arrow_int64", "arrow_float64"))]
+    else:
+        keep = [i for i in range(n) if vals[i] is not None]
     if is_num:
         expv = np.array([float(x) if x is not None and x is not pd.NA else np.nan for x in list(col)], dtype=float)[keep]
         exp_names = ["V"] if usage != "interaction" else ["V:num"]
@@ -179,7 +191,7 @@ def judge(case) -> Outcome:
             out.fail("c08.numeric_values", f"{tag}: column values {M[:, 0].tolist()} expected {expv.tolist()}")
         return out
     # text / categorical
-    observed = sorted({v for i, v in enumerate(vals) if not (with_null and i == 1)}, key=str)
+    observed = sorted({v for v in vals if v is not None}, key=str)
     if dtype.startswith("category") and mat != "arrow":
         levels = sorted(case["levels"]) if dtype in ("category", "category_ordered") else list(case["levels"])
         if dtype == "category_unused":
@@ -187,13 +199,13 @@ def judge(case) -> Outcome:
         if dtype == "category_int":
             m = {lv: i * 10 for i, lv in enumerate(case["levels"])}
             levels = [m[lv] for lv in case["levels"]]
-            vals = [m[v] for v in vals]
+            vals = [None if v is None else m[v] for v in vals]
     else:
         levels = observed
         if dtype == "category_int":
             m = {lv: i * 10 for i, lv in enumerate(case["levels"])}
-            vals = [m[v] for v in vals]
-            levels = sorted({m[v] for i, v in enumerate(case["vals"]) if not (with_null and i == 1)})
+            vals = [None if v is None else m[v] for v in vals]
+            levels = sorted({v for v in vals if v is not None})
     exp_names = [f"V[{lv}]" for lv in levels] if usage != "wrapped" else [f"C(V)[{lv}]" for lv in levels]
     ind = np.array([[1.0 if vals[i] == lv else 0.0 for lv in levels] for i in keep]).reshape(len(keep), len(levels))
     if usage == "interaction":
